@@ -26,6 +26,9 @@ ASSUMPTIONS = [
     'direct (TLS-mimicking) transport only; session id of the ClientHello is 32 bytes (the client always writes 32)',
     'certificate payload of the reply 1..16384 bytes (the code draws 27..68)',
     'messages handed to TLSConn.Write have 0 < length <= 16640 (from the frame-size bound; longer ones are refused and nothing is written)',
+    'rejected connections: the redirect target of the harness is a decoy that answers a ClientHello with a hand-composed TLS 1.3 flight '
+    '(ServerHello echoing the legacy session id, ChangeCipherSpec, two application-data records); with a target that does not speak TLS the '
+    'relayed bytes are whatever it sends (C09: byte-exact relay)',
 ]
 
 MOD = 'c10'
@@ -201,6 +204,15 @@ def gen_cases(ctx):
     for k, (br, enc, un, name, nc, pat) in enumerate(rows):
         line = 'r%d RUN %s %s %d %s %d %s c%d-%d' % (k, br, enc, un, hx(name.encode()), nc, pat, ctx.seed, k)
         cases.append(['r%d' % k, line, dict(browser=br, enc=enc, unordered=un, name=name, numconn=nc, pattern=pat)])
+    # connections of real clients the server rejects (unknown proxy method, unknown UID, wrong server key, stale clock)
+    # are relayed to a TLS-speaking decoy: the wire must carry that one conversation and nothing else
+    k = 0
+    for br in ['chrome', 'firefox', 'safari']:
+        for reason in ['badmethod', 'baduid', 'wrongkey', 'late'] + (['none'] if br == 'firefox' else []):
+            line = 'd%d RDR %s %s c%d-d%d' % (k, br, reason, ctx.seed, k)
+            cases.append(['d%d' % k, line, dict(browser=br, enc='aes-gcm', unordered=0, name='www.example.com', numconn=1,
+                                                pattern='rejected:' + reason)])
+            k += 1
     return cases
 
 
@@ -268,6 +280,24 @@ def evaluate(ctx, cases, tag):
                 r['problems'].append(('sid-echo', 'connection %d: ServerHello session id %s, ClientHello session id %s' % (i, ps.split()[2], pc.split()[3])))
             mlines.append('%s.c%d C %s %s' % (cid, i, '?' if name is None else hx(name), hx(c2s)))
             mlines.append('%s.s%d S %s' % (cid, i, hx(s2c)))
+            if g.get('rdr') == '1':
+                # exactly one of {relayed to the decoy verbatim, answered as a Cloak session}; the bytes the client gets are
+                # then exclusively those of that outcome (the decoy's reply / one Cloak server flight)
+                dials, dout, din = int(g['dials']), unhex(g['dout']), unhex(g['din'])
+                conn.update(dials=dials)
+                if dials > 1:
+                    r['problems'].append(('relayed-twice', 'connection handed to the redirect target %d times' % dials))
+                elif dials == 1 and s2c != dout:
+                    k = next((j for j in range(min(len(s2c), len(dout))) if s2c[j] != dout[j]), min(len(s2c), len(dout)))
+                    r['problems'].append(('mixed-stream', 'connection %d was relayed to the redirect target, but the %d bytes the server sent the client are not '
+                                          'the %d bytes the target sent (first difference at offset %d: wire %s.., target %s..): two conversations share one connection'
+                                          % (i, len(s2c), len(dout), k, s2c[k:k + 12].hex() or '-', dout[k:k + 12].hex() or '-')))
+                elif dials == 1 and din != c2s:
+                    r['problems'].append(('mixed-stream', 'connection %d: the redirect target received %d bytes, the client sent %d' % (i, len(din), len(c2s))))
+                elif dials == 0 and meta['pattern'] != 'rejected:none':
+                    r['diffs'].append('a client the server must reject (%s) was not relayed to the redirect target' % meta['pattern'])
+                r['conns'].append(conn)
+                continue
             for side, key, stream in (('sw', 'w%d' % i, s2c), ('cw', 'cw%d' % i, c2s)):
                 ws = [] if g[key] == '-' else [int(x) for x in g[key].split(',')]
                 if ws:
@@ -393,6 +423,8 @@ def correspondence(ctx, verdict, pr):
         evaluations=len(cases), distinct_nontrivial=len(distinct),
         rule='pairwise cover of 3 browser signatures x 4 encryption methods x ordered/unordered x 6 server names (incl. random) x 1..2 connections '
              'x 6 traffic patterns (small writes, multi-frame writes up to 70000 bytes, stream close, client session close, server session close, idle); '
+             'plus 3 browser signatures x 4 rejected real clients (unknown proxy method, unknown UID, wrong server key, stale clock) relayed to a '
+             'TLS-speaking decoy (the client must see exactly the decoy\'s flight, the decoy exactly the client\'s hello); '
              'every byte of every connection in both directions parsed by the extracted Coq grammar and by the Python grammar. distinct_nontrivial = '
              'distinct configurations whose pattern completed and whose taps both grammars accept identically',
         samples=[c[1] for c in cases[ncorpus:ncorpus + 3]],
@@ -432,6 +464,7 @@ MANIFEST = dict(
     level_note='Trusted: Coq kernel; extraction; the grammar is a structural validator, not a full TLS 1.3 validator; schedules are sampled (passive tap), not enumerated; '
                'C04 (codec worker) for |frame| = 14 + payload + extra.',
     design_ref='DESIGN.md section 6, C10')
+
 
 # ---- concurrency windows (tools/props/winlib.py): pooled record buffer under concurrent writers
 import winlib
